@@ -111,11 +111,18 @@ def run(ctx):
         for how, fn in (("read_dataset", read_dataset), ("from_" + conv, direct[conv])):
             key = {"conv": conv, "via": how}
             try:
-                out = fn(ds.copy(deep=True))
+                obj = ds.copy(deep=True)
+                out = fn(obj)
+                first = out.efth.values.copy() if "efth" in out else None
+                out_again = fn(obj)         # the same native object converted a second time (a session converts, inspects, converts again)
             except Exception as ex:  # noqa
                 ctx.violation(dict(key, raised=type(ex).__name__), "%s raised %s on a %s dataset" % (how, type(ex).__name__, conv), {"err": str(ex)[:250]})
                 continue
             probs = []
+            if first is not None and ("efth" not in out_again or not np.array_equal(out_again.efth.values, first, equal_nan=True)
+                                      or not np.array_equal(out.efth.values, first, equal_nan=True)):
+                probs.append(("second-conversion", "converting the same native dataset a second time gives other spectra than the first time "
+                              "(or changes the first result)"))
             if "efth" not in out or set(out.efth.dims) != {"time", "site", "freq", "dir"}:
                 probs.append(("layout", "result has variables %s / efth dims %s" % (list(out.data_vars), getattr(out.get("efth"), "dims", None))))
             else:
